@@ -22,6 +22,12 @@ pub fn menu_case(l: L) -> Vec<(String, usize)> {
     vec![m[0].clone(), m[1].clone(), (m[4].0.clone(), 7), (m[8].0.clone(), 9)]
 }
 
+/// ratings far above 2^31 (still inside the signed range the scorer can represent)
+pub fn menu_huge(l: L) -> Vec<(String, usize)> {
+    let s = sym(l);
+    vec![(s.c.to_string(), (1 << 31) + 1), (format!("{0}{0}", s.v), (1 << 31) + 2), (format!("{} {}", s.v, s.c), 1 << 40), (format!("{0}{1}{0} {1}", s.v, s.c), 1 << 62)]
+}
+
 pub fn menu10(l: L) -> Vec<(String, usize)> {
     // equal ratings; raw order and normalised order disagree ('B' < 'a' raw, 'b' > 'a' normalised; an accented
     // letter of the language sorts after 'f' raw and before it normalised)
@@ -59,6 +65,7 @@ impl C12 {
             sets.push((l, "stores<=5 over 4 (title,rating) pairs with duplicates".to_string(), menu4(l), tier.pick(5, 7), false));
             sets.push((l, "stores<=3 over 10 pairs (raw vs normalised order)".to_string(), menu10(l), tier.pick(3, 4), false));
             sets.push((l, "stores<=4 over 4 titles, pairwise distinct ratings".to_string(), menu4(l), tier.pick(4, 5), true));
+            sets.push((l, "stores<=4 over 4 pairs with ratings 2^31+1 .. 2^62".to_string(), menu_huge(l), 4, false));
         }
         C12 { tier, sets }
     }
